@@ -1163,6 +1163,58 @@ def rule_L2(ctx):
     ctx.analysed(f, init, pp, us)
 
 
+def rule_N0(ctx):
+    """Clone labels are the integers 0, 1, 2, …: create_root_node names a new clone after the number of clones, which
+    is a fresh label only while labels are dense (relabel_nodes restores 0..K-1 in every sweep) and while the two
+    reserved names cannot be taken for a clone label."""
+    prog = ctx.prog
+    ctx.rule("N0", "label discipline: reserved names cannot collide with clone labels; relabelling starts at 0 and runs in every sweep before the next SMC pass", 5)
+    tree = prog.cls("tree.tree.Tree")
+    consts = {}
+    for st in tree.node.body:
+        if isinstance(st, ast.Assign) and len(st.targets) == 1 and isinstance(st.targets[0], ast.Name):
+            try:
+                consts[st.targets[0].id] = ast.literal_eval(st.value)
+            except ValueError:
+                consts[st.targets[0].id] = None
+    o, r = consts.get("_OUTLIER_NODE_NAME", "missing"), consts.get("_ROOT_NODE_NAME", "missing")
+    ok = (isinstance(o, int) and not isinstance(o, bool) and o < 0) or isinstance(o, str)
+    ctx.check(ok, "N0", "Tree._OUTLIER_NODE_NAME is not a possible clone label (clone labels are 0, 1, 2, …)", tree.where(), "the outlier set is named %r, which a clone can also be named: the clone's data and the outliers share one entry of the data map" % (o,), construct=tree.qualname, stmt="_OUTLIER_NODE_NAME")
+    ctx.check(isinstance(r, str), "N0", "Tree._ROOT_NODE_NAME is not a possible clone label", tree.where(), "the virtual root is named %r" % (r,), construct=tree.qualname, stmt="_ROOT_NODE_NAME")
+    ctx.check(o != r, "N0", "the two reserved names differ", tree.where(), "root and outlier set share the name %r" % (o,), construct=tree.qualname, stmt="reserved names differ")
+    from ..astutil import func_defaults
+
+    vinit = prog.fn("PreOrderNodeRelabeller.__init__")
+    d = func_defaults(vinit.node).get("start_idx")
+    rl = prog.fn("Tree.relabel_nodes")
+    passes = [c for c in calls(rl.node, name="PreOrderNodeRelabeller") if len(c.args) > 2 or any(k.arg == "start_idx" for k in c.keywords)]
+    ctx.check(d is not None and u(d) == "0" and not passes, "N0", "relabel_nodes numbers the clones 0..K-1 (pre-order from 0)", vinit.where(), "relabelling starts at %s: the labels are no longer 0..K-1, so create_root_node's new label (= number of clones) can already be in use" % (u(d) if d is not None else "?"), construct=vinit.qualname, stmt="start_idx=0")
+    cr = prog.fn("Tree.create_root_node")
+    ex = extract(prog, cr, opaque_self_methods={"_add_node", "_add_list_of_data_points_to_node", "_update_path_to_root"})
+    adds = ex.calls("._add_node")
+    ok = len(adds) >= 1 and all(show(e.args[0]) == "P0._graph.num_nodes() - 1" for e in adds)
+    ctx.check(ok, "N0", "create_root_node names the new clone after the number of clones (graph nodes minus the virtual root)", cr.where(), "the new clone is named %s" % ([show(e.args[0]) for e in adds] or "nothing"), construct=cr.qualname, stmt="new label")
+    for fname in ("run._run_main_sampler", "run._run_burnin"):
+        f = prog.fn(fname)
+        loops = [n for n in ast.walk(f.node) if isinstance(n, ast.For)]
+        outer = [l for l in loops if any(isinstance(x, ast.Call) and last_name(x) == "sample_tree" for x in ast.walk(l))]
+        ok = False
+        if outer:
+            body_calls = [c for c in calls(outer[0]) if last_name(c) in ("sample_tree", "relabel_nodes")]
+            names = [last_name(c) for c in body_calls]
+            ok = "relabel_nodes" in names and names.index("relabel_nodes") > max(i for i, n in enumerate(names) if n == "sample_tree")
+            if ok:
+                from ..astutil import parents as _parents
+                from ..paths import guards_of as _guards_of
+
+                rc = [c for c in body_calls if last_name(c) == "relabel_nodes"][0]
+                pm = _parents(outer[0])
+                inner = [g for g in _guards_of(rc, pm)]  # tests between the loop header and the call
+                ok = not inner
+        ctx.check(ok, "N0", "%s relabels the tree once per sweep, after the moves, unconditionally" % f.name, f.where(), "the sweep does not end with tree.relabel_nodes(): labels drift away from 0..K-1 and the next SMC pass can give a new clone a label that is in use", construct=f.qualname, stmt="tree.relabel_nodes()")
+        ctx.analysed(f)
+
+
 def rule_R0(ctx):
     """An editing method that resets the whole tree (self.__init__) discards every data point, outliers
     included; it may do so only when the tree it removes equals the whole tree (Tree.__eq__: clades AND outliers)."""
@@ -1197,6 +1249,7 @@ def run(ctx):
     rule_L1(ctx, fx)
     rule_L2(ctx)
     rule_R0(ctx)
+    rule_N0(ctx)
     # a tree restored / copied from a stored form must own its data lists: the samplers edit trees in place
     # (outliers are stripped from the input of the subtree move), and a shared list silently loses the
     # points of the stored form (same rule object as C06.M4)
@@ -1271,4 +1324,13 @@ SELFTEST = [
     {"name": "benign-rename-data-point-variable", "kind": "benign", "file": _PG, "old": "        for data_point in tree.outliers:\n            tree.remove_data_point_from_outliers(data_point)\n\n            subtree.add_data_point_to_outliers(data_point)\n", "new": "        for dp in tree.outliers:\n            subtree.add_data_point_to_outliers(dp)\n            tree.remove_data_point_from_outliers(dp)\n"},
     {"name": "benign-candidate-builder-print", "kind": "benign", "file": _G, "old": "            new_tree.add_subtree(subtree, parent=parent)\n\n            new_tree.update()\n\n            trees", "new": "            print(\"graft below\", parent)\n            new_tree.add_subtree(subtree, parent)\n\n            new_tree.update()\n\n            trees"},
     {"name": "benign-sample-loop-reformatted", "kind": "benign", "file": _SB, "old": "            self.iteration += 1\n\n        return self.swarm", "new": "            self.iteration += 1\n            pass\n\n        result = self.swarm\n        return self.swarm"},
+    {"name": "N0-outlier-name-collides", "kind": "break", "rule": "N0", "file": "phyclone/tree/tree.py", "old": "    _OUTLIER_NODE_NAME = -1\n", "new": "    _OUTLIER_NODE_NAME = 1\n"},
+    {"name": "N0-relabel-from-one", "kind": "break", "rule": "N0", "file": "phyclone/tree/visitors.py", "old": "def __init__(self, tree, data, start_idx=0):", "new": "def __init__(self, tree, data, start_idx=1):"},
+    {"name": "N0-main-loop-no-relabel", "kind": "break", "rule": "N0", "file": "phyclone/run.py", "old": "            tree.relabel_nodes()\n\n            if concentration_update:", "new": "            if concentration_update:"},
+    {"name": "R0-reset-on-equal-clone-count", "kind": "break", "rule": "R0", "file": "phyclone/tree/tree.py", "old": "        if subtree == self:\n            self.__init__(self.grid_size)", "new": "        if subtree.get_number_of_nodes() == self.get_number_of_nodes():\n            self.__init__(self.grid_size)"},
+    {"name": "TS-outlier-add-does-nothing", "kind": "break", "rule": "TS", "file": "phyclone/tree/tree.py", "old": "        self.add_data_point_to_node(data_point, self._OUTLIER_NODE_NAME)", "new": "        assert self._is_data_point_in_tree(data_point) == False"},
+    {"name": "TS-new-clone-keeps-children-under-root", "kind": "break", "rule": "TS", "file": "phyclone/tree/tree.py", "old": "            self._graph.remove_edge(root_idx, child_idx)\n\n", "new": ""},
+    {"name": "TS-outlier-removal-does-nothing", "kind": "break", "rule": "TS", "file": "phyclone/tree/tree.py", "old": "    def remove_data_point_from_outliers(self, data_point):\n        self._data[self._OUTLIER_NODE_NAME].remove(data_point)", "new": "    def remove_data_point_from_outliers(self, data_point):\n        assert data_point in self._data[self._OUTLIER_NODE_NAME]"},
+    {"name": "TS-get_parent-second-predecessor", "kind": "break", "rule": "TS", "file": "phyclone/tree/tree.py", "old": "return [pred.node_id for pred in self._graph.predecessors(node_idx)][0]", "new": "return [pred.node_id for pred in self._graph.predecessors(node_idx)][-1:][0] if node_idx else None"},
+    {"name": "benign-TS-extra-refresh-and-print", "kind": "benign", "file": "phyclone/tree/tree.py", "old": "        self._last_node_added_to = node\n\n        self._update_path_to_root(node)\n\n        return node", "new": "        self._last_node_added_to = node\n\n        self._update_path_to_root(node)\n        self.update()\n        print(node)\n\n        return node"},
 ]
